@@ -296,3 +296,138 @@ func iterGraphCheck(newIter func() *IterDyn, contIDs map[ptrKey]int, seq []Pair,
 	st.Nested["iterator_graphs"]++
 	return nil
 }
+
+// ---- iterators over a container that is modified meanwhile (C17 only) ---------------------
+//
+// C08's cursor semantics do not apply once the container has been modified, but C17 does: every
+// iterator operation must still return normally, and a value read after a successful move must not
+// panic.  For every container state, every iterator position, every mutating operation of the
+// alphabet and every continuation of up to two iterator calls: no panic, no unbounded loop.
+
+var iterMutConts = [][]string{{"Next"}, {"Prev"}, {"First"}, {"Last"}, {"NextTo"}, {"PrevTo"},
+	{"Next", "Next"}, {"Next", "Prev"}, {"Prev", "Next"}, {"Prev", "Prev"}, {"Begin", "Next"}, {"End", "Prev"}, {"Next", "NextTo"}, {"Prev", "PrevTo"}, {"NextTo", "Prev"}, {"PrevTo", "Next"}}
+
+func iterMutCheck(build func() Inst, st *Stats) *Viol {
+	b0 := build().(Box)
+	if b0.NewIter() == nil {
+		return nil
+	}
+	n := len(b0.ExpSeq())
+	rev := b0.NewIter().Rev
+	ops := b0.Ops()
+	type start struct {
+		fromEnd bool
+		steps   int
+	}
+	var starts []start
+	for k := 0; k <= n+1; k++ {
+		starts = append(starts, start{false, k})
+		if rev {
+			starts = append(starts, start{true, k})
+		}
+	}
+	for _, s0 := range starts {
+		for _, o := range ops {
+			for _, cont := range iterMutConts {
+				usesRev := false
+				for _, c := range cont {
+					if c == "Prev" || c == "Last" || c == "PrevTo" || c == "End" {
+						usesRev = true
+					}
+				}
+				if usesRev && !rev {
+					continue
+				}
+				inflightSeq.Add(1)
+				b := build().(Box)
+				it := b.NewIter()
+				if s0.fromEnd {
+					it.End()
+					for i := 0; i < s0.steps; i++ {
+						if it.Prev() {
+							it.Cur()
+						}
+					}
+				} else {
+					for i := 0; i < s0.steps; i++ {
+						if it.Next() {
+							it.Cur()
+						}
+					}
+				}
+				what := b.Describe(o)
+				if v := safeStep(b, o, nil); v != nil && v.Class == "panic" {
+					continue // the mutation itself fails: reported by the ordinary searches
+				}
+				calls := 0
+				limit := 20*(n+8) + 200
+				pred := func(a, b any) bool {
+					calls++
+					if calls > limit {
+						panic("tool: predicate budget")
+					}
+					return false
+				}
+				v := safeCheck(func() (vv *Viol) {
+					defer func() {
+						if r := recover(); r != nil {
+							if s, ok := r.(string); ok && s == "tool: predicate budget" {
+								vv = viol(tag("C17"), "hang", "NextTo/PrevTo on an iterator of %s whose container was modified keeps finding elements (more than %d predicate calls over %d elements): it does not terminate", b.ContainerName(), limit, n)
+								return
+							}
+							panic(r)
+						}
+					}()
+					for _, c := range cont {
+						var ok bool
+						switch c {
+						case "Next":
+							ok = it.Next()
+						case "Prev":
+							ok = it.Prev()
+						case "First":
+							ok = it.First()
+						case "Last":
+							ok = it.Last()
+						case "Begin":
+							it.Begin()
+						case "End":
+							it.End()
+						case "NextTo":
+							ok = it.NextTo(pred)
+						case "PrevTo":
+							ok = it.PrevTo(pred)
+						}
+						if ok {
+							it.Cur() // values are read only after a successful move
+						}
+					}
+					return nil
+				}, []string{"C17"}, "iterator calls after a modification")
+				st.Nested["iterator_after_modification_cases"]++
+				if v != nil {
+					from := "Begin"
+					if s0.fromEnd {
+						from = "End"
+					}
+					v.Msg = fmt.Sprintf("%s: iterator moved %d step(s) from %s, then %s on the container, then iterator %v: %s", b.ContainerName(), s0.steps, from, what, cont, v.Msg)
+					v.Sig = fmt.Sprintf("itermut|%s|%s", b.ContainerName(), v.Class)
+					return v
+				}
+			}
+		}
+	}
+	return nil
+}
+
+func init() {
+	jobKinds["itermut"] = func(j Job, r *JobResult) {
+		s := makeSys(j.s("c", ""), j)
+		exploreJob(j, r, s, func(e *Explorer) {
+			e.NoState = true
+			e.OnState = func(path []Op, build func() Inst, st *Stats) *Viol {
+				return iterMutCheck(build, st)
+			}
+		})
+	}
+}
